@@ -3,6 +3,7 @@
 mod case;
 mod explore;
 mod gen_exp;
+mod gen_lp;
 mod props;
 mod rng;
 mod sx;
